@@ -32,7 +32,12 @@
      sort.Sort(fields) by Name; FieldsToPrint/ToClone       fields_to_print / fields_to_clone
    gencommon/comments.go:73, interface.go:108: map        lookup_first (first match in
      ranges that return at the first match of a key          iteration order)
-     that at most one entry has                                                              *)
+     that at most one entry has
+   gencommon/interface.go namedTypeToInterface:           iface_methods, method_lt,
+     methodsToAdd map, append in map order; consumers       factory_comments/comment_of
+     Methods.Exported/Private sort by generated
+     Methods.Less (IsExported, Name); gerror files the
+     comments under the method name                                                          *)
 From Coq Require Import List Bool ZArith String Permutation.
 From GT Require Import GSortModel Base.SortU.
 Import ListNotations.
@@ -200,6 +205,23 @@ Definition fields_to_print (srt srt2 : list efield -> list efield) (fs : list ef
   srt2 (filter ef_print (gerror_fields srt fs)).
 Definition fields_to_clone (srt srt2 : list efield -> list efield) (fs : list efield) :=
   srt2 (filter ef_clone (gerror_fields srt fs)).
+
+(* ------------------------------------------------------------------ gencommon Interface.Methods *)
+Record gmethod := { gm_name : string; gm_exported : bool; gm_comment : string }.
+(* generated Methods.Less: IsExported (false before true), then Name *)
+Definition method_lt (a b : gmethod) : bool :=
+  if Bool.eqb (gm_exported a) (gm_exported b) then str_lt (gm_name a) (gm_name b)
+  else negb (gm_exported a) && gm_exported b.
+(* namedTypeToInterface: the type's own methods, then the embedded ones Go promotes, in the
+   iteration order of the methodsToAdd map (keyed by method name) *)
+Definition iface_methods (pi : list (string * gmethod) -> list (string * gmethod))
+           (promoted : string -> bool) (own : list gmethod) (to_add : list (string * gmethod))
+  : list gmethod :=
+  (own ++ map snd (filter (fun kv => promoted (fst kv)) (pi to_add)))%list.
+(* gerror Parse: `for _, m := range iFact.Methods { g.FactoryComments[m.Name] = comments }`,
+   the template then reads `index $.FactoryComments "<name>"`: the last method of that name wins *)
+Definition comment_of (name : string) (ms : list gmethod) : option string :=
+  option_map gm_comment (find (fun m => String.eqb (gm_name m) name) (rev ms)).
 
 (* ------------------------------------------------------------------ first-match map lookups *)
 Definition lookup_first {A} (pi : list A -> list A) (p : A -> bool) (m : list A) : option A :=
